@@ -137,9 +137,20 @@ def gen_cases(rng, tier):
 # ---- implementation side ----------------------------------------------------
 
 def impl_run(case):
+    """the operation, plus: the receiver (and a histogram sharing its mapping) still reads as before"""
+    from dyce import H
+    h0 = H(gens.py_hist_dict(case["h"]))
+    alias = H(h0)
+    before = (hist_items(h0), h0.total)
+    out = _impl_op(case, h0)
+    if (hist_items(h0), h0.total) != before or (hist_items(alias), alias.total) != before or h0.total != sum(h0.counts()):
+        out = dict(out, receiver_changed=True)
+    return out
+
+
+def _impl_op(case, h):
     from dyce import H
     import dyce.rng
-    h = H(gens.py_hist_dict(case["h"]))
     k = case["kind"]
     try:
         if k == "draw":
@@ -188,6 +199,8 @@ def _creq(pairs):
 def coq_check(case, r):
     k = case["kind"]
     if "exc" not in r and "ok" not in r:
+        return "MISMATCH"
+    if r.get("receiver_changed"):
         return "MISMATCH"
     exp = cres(r, chist)
     if exp is None:
@@ -277,6 +290,8 @@ def oracle(case):
 
 
 def agree(case, r, o):
+    if r.get("receiver_changed"):
+        return False
     if case["kind"] == "draw_none":
         d = _d(case["h"])
         if sum(d.values()) == 0:
